@@ -11,6 +11,7 @@ import (
 	"github.com/enbility/spine-go/api"
 	"github.com/enbility/spine-go/internal/verifh/engine"
 	"github.com/enbility/spine-go/internal/verifh/world"
+	"github.com/enbility/spine-go/model"
 	"github.com/enbility/spine-go/spine"
 )
 
@@ -228,7 +229,7 @@ func c15Scenarios() []*engine.SScenario {
 	}
 	return []*engine.SScenario{
 		c15CoreLifetime(),
-		c15CoreLifetimeConcurrent(),
+		c15CoreLifetimeConcurrent(), c15CoreHandlerAgainstTheStack(),
 		mk("publish | subscribe+unsubscribe", []string{"C1", "P1"}, nil, func(b *evBus) []func() {
 			return []func(){func() { b.pub("e1") }, func() { b.sub("P2"); b.unsub("P1") }}
 		}),
@@ -386,6 +387,45 @@ func c15CoreLifetimeConcurrent() *engine.SScenario {
 			if nsub != 1 || nuc != 1 || nev != 1 {
 				viol = append(viol, fmt.Sprintf("a device event did not reach the stack's internal handler and the application exactly once | subscription requests=%d use-case reads=%d application events=%d", nsub, nuc, nev))
 			}
+		})
+		return rt.Outcome{Res: res, Violations: append(viol, panicsAndDeadlocks(res)...), Digest: dig}
+	}}
+}
+
+
+// c15CoreHandlerAgainstTheStack: the stack's own core handler works while the bus lock is held (it sends the
+// node-management subscription request of a newly discovered peer, which takes the node-management feature), the
+// managers publish while they hold their own lock, and the application changes node-management data (use cases)
+// whose subscribers are looked up in the subscription manager. The three meet when a peer's discovery reply, another
+// peer's subscription request and a use-case change are processed at the same time: none may wait for the others in
+// a circle, every call returns.
+func c15CoreHandlerAgainstTheStack() *engine.SScenario {
+	return &engine.SScenario{Name: "a discovery reply, a subscription request of another peer and a use-case change at the same time: every call returns", Heavy: true, Run: func(cfg rt.Config) rt.Outcome {
+		var viol []string
+		dig := ""
+		res := rt.Execute(cfg, func() {
+			ents := []world.EntSpec{clientEntity([]uint{1})}
+			w := world.New(true)
+			stdLocal(w)
+			a := w.ConnectAndAnnounce("A", "dA", ents)
+			a.Deliver(a.SubscribeCall(a.NM(), world.LocalNM(), model.FeatureTypeTypeNodeManagement))
+			b := w.ConnectAndAnnounce("B", "dB", ents)
+			rt.WaitIdle()
+			// the event the stack publishes when the discovery reply of a peer has been processed, published once more
+			// (what a repeated reply of B leads to; publishing it directly keeps the thread short enough for two deviations)
+			announce := api.EventPayload{Ski: "B", EventType: api.EventTypeDeviceChange, ChangeType: api.ElementChangeAdd, Device: b.Dev,
+				Feature: b.Dev.FeatureByAddress(b.NM()), Data: &model.NodeManagementDetailedDiscoveryDataType{}}
+			sub := a.SubscribeCall(cliAddr("A", "e1f1", true), srvAddr("L1lc", true), model.FeatureTypeTypeLoadControl)
+			e1 := w.L.Entity(spine.NewAddressEntityType([]uint{1}))
+			rt.BeginExplore()
+			rt.Go(func() { spine.Events.Publish(announce) })
+			rt.Go(func() { a.Deliver(sub) })
+			rt.Go(func() {
+				e1.AddUseCaseSupport(model.UseCaseActorTypeCEM, ucNames["u1"], "1.0.0", "r", true, scenList("12"))
+			})
+			rt.WaitIdle()
+			rt.JoinFinished()
+			dig = fmt.Sprint(len(w.L.SubscriptionManager().Subscriptions(a.Dev)))
 		})
 		return rt.Outcome{Res: res, Violations: append(viol, panicsAndDeadlocks(res)...), Digest: dig}
 	}}
